@@ -79,8 +79,8 @@ Qed.
 
 Lemma same_vis_info c c' : same_vis c c' -> info c' = info c.
 Proof.
-  intros (H1 & H2 & H3 & _). unfold info, index_information, is_created.
-  rewrite H1, H2, H3. destruct (match docs c with [] => _ | _ => _ end); reflexivity.
+  intros (H1 & H2 & H3 & _). unfold info, index_information.
+  rewrite H2, H3. destruct (is_created c); reflexivity.
 Qed.
 
 Lemma err_eqb_dup e : err_eqb e EDup = false <-> e <> EDup.
